@@ -408,8 +408,34 @@ def check_reset(rep, construct, sm, info, A, loc):
 
 
 # ---------------------------------------------------------------------- sort / group / ungroup / is_grouped
+def check_sort_keys(prog, rep, K, A):
+    """R9-sortkeys: group_<axis> = sort_<axis> + recount of contiguous runs, and sort_<axis> sorts by lexsort_<axis>'s default keys; numpy.lexsort takes its LAST key
+    as the primary one, so the group array stands last in the default key tuple - otherwise the sorted layout is by label first, members of one group are scattered
+    and the recounted name / stix / spix / len are not a partition."""
+    f = prog.lookup_method(K, "lexsort_" + A)
+    if f is None:
+        return
+    construct = "%s.lexsort_%s" % (f.cls.qualname if f.cls is not None else K.qualname, A)
+    grp = {"taxa": "taxa_grp", "vrnt": "vrnt_chrgrp", "trait": None}.get(A)
+    dft = [st.value for st in walk_no_nested(f.node) if isinstance(st, ast.Assign) and isinstance(st.targets[0], ast.Name) and st.targets[0].id == (f.params()[1] if len(f.params()) > 1 else "keys")
+           and isinstance(st.value, ast.Tuple) and all(field_of(e) is not None for e in st.value.elts)]
+    if grp is None or not dft:
+        return
+    rep.saw(f)
+    flds = [field_of(e).lstrip("_") for e in dft[0].elts]
+    if grp not in flds:
+        rep.violate("R9-sortkeys", construct, "the default sort keys %s do not contain the group array %s: grouping sorts without bringing the members of a group together" % (flds, grp),
+                    where(f), "(..., self._%s)" % grp, str(flds))
+    elif flds[-1] != grp:
+        rep.violate("R9-sortkeys", construct, "the default sort keys are %s: numpy.lexsort sorts by its LAST key first, so the layout is by %s first and the members of a group are not "
+                    "contiguous - the group metadata recounted after the sort do not describe a partition" % (flds, flds[-1]), where(f), "(..., self._%s)" % grp, str(flds))
+    else:
+        rep.ok("R9-sortkeys", construct, "default keys %s: group array last (= primary for numpy.lexsort)" % flds)
+
+
 def check_sort_group(prog, rep, K, ai, A):
     info = ai.axes[A]
+    check_sort_keys(prog, rep, K, A)
     # sort_A: same permutation on all fields, metadata reset
     mname = "sort_" + A
     if prog.lookup_method(K, mname) is not None:
@@ -1123,7 +1149,7 @@ def run(prog, rep, tier):
                        "truth of is_grouped after user writes through public setters",
                        "classes whose axis constants do not fold statically are analysed in thorough tier only"]
     rep.floor("R8-none", 10)
-    floors = {"R1-fields": 120, "R2-square": 10, "R3-twins": 30, "R4-purity": 60, "R5-typestate": 60, "R6-dispatch": 100, "R7-ctor": 60}
+    floors = {"R1-fields": 120, "R2-square": 10, "R3-twins": 30, "R4-purity": 60, "R5-typestate": 60, "R6-dispatch": 100, "R7-ctor": 60, "R9-sortkeys": 3}
 
     for r, n in floors.items():
         rep.floor(r, n)
